@@ -504,6 +504,47 @@ pub struct Hole {
 }
 
 impl Program {
+    /// Every type written in the program text: alias definitions, parameters, results, let
+    /// annotations, match-arm binders and the type arguments of calls.
+    pub fn for_each_annotation(&mut self, f: &mut dyn FnMut(&mut Ty)) {
+        for item in self.items.iter_mut() {
+            match item {
+                Item::Alias(_, t) => f(t),
+                Item::Func(func) => {
+                    for (_, t) in func.params.iter_mut() {
+                        f(t);
+                    }
+                    if let Some(t) = &mut func.ret {
+                        f(t);
+                    }
+                    func.body.visit_mut(&mut |e| match e {
+                        Expr::Block(stmts, _) => {
+                            for s in stmts.iter_mut() {
+                                if let Stmt::Let(_, t, _) = s {
+                                    f(t);
+                                }
+                            }
+                        }
+                        Expr::Match(_, arms) => {
+                            for arm in arms.iter_mut() {
+                                match &mut arm.pat {
+                                    MatchPat::Some_(_, t) | MatchPat::Left(_, t) | MatchPat::Right(_, t) => f(t),
+                                    _ => {}
+                                }
+                            }
+                        }
+                        Expr::Call(c) => match &mut c.name {
+                            CallName::UnwrapLeft(t) | CallName::UnwrapRight(t) | CallName::IsNone(t) | CallName::Cast(t) => f(t),
+                            _ => {}
+                        },
+                        _ => {}
+                    });
+                }
+                Item::Module(_) => {}
+            }
+        }
+    }
+
     pub fn funcs(&self) -> impl Iterator<Item = &Func> {
         self.items.iter().filter_map(|i| match i {
             Item::Func(f) => Some(f),
@@ -697,6 +738,13 @@ impl<'a> Renderer<'a> {
         }
     }
     fn nl(&mut self) {
+        // now and then an empty or white-space-only line inside a block
+        if self.st.blank_lines >= 2 && self.in_call == 0 && self.rng.chance(1, 5) {
+            self.out.push_str(self.st.nl);
+            if self.rng.chance(1, 2) {
+                self.out.push_str(self.st.indent);
+            }
+        }
         self.out.push_str(self.st.nl);
         for _ in 0..self.depth {
             self.out.push_str(self.st.indent);
